@@ -17,8 +17,9 @@ def check(ctx):
     def oracle(c):
         res, cases = coord_common.multi_source_oracle(c, c.q(10, 80), c.q(3, 10), kinds=('plain', 'plain', 'plain', 'gz', 'tar'),
                                                       sigprefix='merge', tie_heavy_ratio=(3, 4))
-        state['cases'] = cases
-        return res
+        res2, cases2 = coord_common.stall_oracle(c, c.q(2, 12), sigprefix='merge')
+        state['cases'] = cases + cases2
+        return core.merge_oracles([res, res2])
 
     def extra(c):
         return [coord_common.trace_correspondence(c, state.get('cases', []))]
